@@ -69,6 +69,8 @@ class Network:
         back to its initial value (unless keep_state)."""
         self.plan = set(plan or ())
         self.log = []        # (label, kind, occurrence, answered, payload)
+        self.requests = []   # [dict(label, kind, payload, outcomes, resent_differently)]
+        self._open = None    # (label, kind, index into requests or None)
         self.counts = {}
         if not keep_state:
             for d in self.devices:
@@ -81,8 +83,31 @@ class Network:
         self.counts[(label, kind)] = occ + 1
         ok = (label, kind, occ) not in self.plan
         self.log.append((label, kind, occ, ok, payload))
+        self._group(label, kind, ok, payload)
         if not ok:
             raise WorkflowException('WorkflowException: Did not receive an answer from %s to %s #%d' % (label, kind, occ))
+
+    # ---- grouping of attempts into requests ----
+    def begin(self, label, kind):
+        """Called by the shim around a production wrapper method (see instrument_wrappers): the
+        attempts of kind `kind` at `label` that follow, up to the next begin(), are one request."""
+        self._open = (label, kind, None)
+
+    def _group(self, label, kind, ok, payload):
+        if self._open is not None and self._open[0] == label and self._open[1] == kind:
+            idx = self._open[2]
+            if idx is None:
+                self.requests.append({'label': label, 'kind': kind, 'payload': payload, 'outcomes': [ok], 'resent_differently': False})
+                self._open = (label, kind, len(self.requests) - 1)
+            else:
+                rq = self.requests[idx]
+                rq['outcomes'].append(ok)
+                if rq['payload'] != payload:
+                    rq['resent_differently'] = True
+            return
+        # a call that no wrapper method announced (LifxLAN calls, the getters used by the
+        # constructors): every attempt is a request of its own
+        self.requests.append({'label': label, 'kind': kind, 'payload': payload, 'outcomes': [ok], 'resent_differently': False})
 
     # ---- views of the log ----
     def attempts(self):
@@ -227,3 +252,38 @@ def install(network):
     FakeLifxLAN.network = network
     lifxlan.LifxLAN = FakeLifxLAN
     return network
+
+
+# wrapper method -> request kind it makes
+WRAPPER_METHODS = {
+    'Light': {'get_color': 'get_color', 'set_color': 'set_color', 'get_power': 'get_power', 'set_power': 'set_power'},
+    'MultizoneLight': {'get_zone_colors': 'get_zones', 'set_zone_colors': 'set_zones'},
+    'MatrixLight': {'_get_size': 'get_chain', 'set_matrix': 'set_tile', 'get_matrix': 'get_tile'},
+}
+
+
+def instrument_wrappers():
+    """Put a shim around the request methods of the production wrappers that tells the network
+    where a request begins (so that retries can be told from repeated commands).  The shim calls
+    the original attribute, whatever decorates it.  Idempotent."""
+    ensure_lifxlan()
+    from bardolph.controller import lifx_lan_light
+    import functools
+    for cname, methods in WRAPPER_METHODS.items():
+        cls = getattr(lifx_lan_light, cname)
+        for mname, kind in methods.items():
+            orig = cls.__dict__.get(mname)
+            if orig is None or getattr(orig, '_c12_shim', False):
+                continue
+
+            def make(orig, kind):
+                @functools.wraps(orig)
+                def shim(self, *a, **k):
+                    net = FakeLifxLAN.network
+                    impl = getattr(self, '_impl', None)
+                    if net is not None and impl is not None:
+                        net.begin(getattr(impl, 'label', None), kind)
+                    return orig(self, *a, **k)
+                shim._c12_shim = True
+                return shim
+            setattr(cls, mname, make(orig, kind))
